@@ -265,6 +265,37 @@ def setup (p : Problem) : Except Err Mat :=
     | .ok _ => .ok (matrix p.reactants (p.reactants ++ p.products) (rc ++ pc) cks)
   | _, _ => .error .keyError
 
+/-- how the caller supplied the compositions -/
+inductive SubstArg
+  | mapping                    -- `substances=<dict>`: used as it is
+  | factory                    -- `substances=None`: `substance_factory(k) for k in chain(reactants, products)`
+  | keys (ks : List String)    -- `substances='A B P'`: `substance_factory(k) for k in substances.split()`
+  deriving Repr
+
+/-- the key → composition resolution step (`if substances is None` / `if isinstance(substances, str)`).
+    `table` is the explicit mapping (`mapping`) resp. the graph of THIS call's `substance_factory`
+    (a key outside it: the factory raises, `none`). An OrderedDict keeps the first position of a repeated key. -/
+def resolve (table : List (String × Comp)) (arg : SubstArg) (reac prod : List String) :
+    Option (List (String × Comp)) :=
+  match arg with
+  | .mapping => some table
+  | .factory => (lookupAll table (reac ++ prod)).map fun cs => (reac ++ prod).zip cs
+  | .keys ks => (lookupAll table ks).map fun cs => ks.zip cs
+
+/-- everything before the solver is called, from the arguments as passed: `_intersect` check, resolution of
+    `substances`, `sorted(...)` of a side passed as a `set`, then `setup` -/
+def setupVia (table : List (String × Comp)) (arg : SubstArg) (reacIsSet prodIsSet : Bool)
+    (reac prod : List String) : Except Err (Problem × Mat) :=
+  if reac.any (prod.contains ·) then .error (.valueError "both-sides") else
+  match resolve table arg reac prod with
+  | none => .error .keyError
+  | some subs =>
+    let p : Problem := { reactants := if reacIsSet then sortedSet reac else reac,
+                         products := if prodIsSet then sortedSet prod else prod, substances := subs }
+    match setup p with
+    | .error e => .error e
+    | .ok A => .ok (p, A)
+
 /-- `balance_stoichiometry` without duplicates (from `if substances is None` to the end), the solver's
     answer for the matrix being given by `solver` -/
 def balanceCore (mode : Mode) (solver : Mat → Candidate) (p : Problem) : Except Err Result :=
